@@ -190,6 +190,14 @@ def build_space(tier):
         d1 = [(path[0][0], nb) for nb, path in levels[1]]
         space[name] = {'seed': seed, 'targets': targets, 'd1': d1}
         nstates += 1 + len(targets)
+    # threshold family: payload sizes around the differ's size cut-offs (shortlen 10, base64 min_len 64, stream 1000, text mimedata 10000)
+    for n in U.threshold_sizes():
+        if tier == 'quick' and n in (63, 65, 999):
+            continue
+        tseed, td1 = U.threshold_family(n)
+        space['Sthr%05d' % n] = {'seed': tseed, 'targets': [(nb, (l,)) for l, t, nb in td1], 'd1': [(l, nb) for l, t, nb in td1], 'threshold': n}
+        nstates += 1 + len(td1)
+        trans += len(td1)
     space['__cross__'] = {'names': sorted(S), 'all': S}
     return space, nstates, trans
 
@@ -204,6 +212,14 @@ def run(tier, seed):
     for name, sp in sorted(space.items()):
         if name == '__cross__':
             shards.append(('cross', name, list(range(len(sp['names'])))))
+            continue
+        if sp.get('threshold'):
+            big = sp['threshold'] >= 9999
+            for ch in chunked(range(len(sp['targets'])), 64 if big else 4):
+                shards.append(('seed-to', name, ch))
+            if sp['threshold'] in (10, 64, 1000):
+                for ch in chunked(range(len(sp['d1'])), 16):
+                    shards.append(('pairs', name, ch))
             continue
         for ch in chunked(range(len(sp['targets'])), max(1, len(sp['targets']) // 150)):
             shards.append(('seed-to', name, ch))
